@@ -51,7 +51,7 @@ thread_local! {
     /// tick number beyond which a sink panics ("runaway"): one call must not run > RUNAWAY ticks
     static TICK_LIMIT: std::cell::Cell<u64> = const { std::cell::Cell::new(u64::MAX) };
 }
-pub const RUNAWAY: u64 = 100;
+pub const RUNAWAY: u64 = 30;
 /// unix-millis deadline of the step in progress (0 = none), watched by `start_watchdog`
 pub static DEADLINE_MS: std::sync::atomic::AtomicU64 = std::sync::atomic::AtomicU64::new(0);
 pub static CURRENT_PROG: std::sync::atomic::AtomicU64 = std::sync::atomic::AtomicU64::new(0);
